@@ -206,6 +206,8 @@ where
             })
             .await
             .map_err(Error::from)?;
+        #[cfg(sos_verif)]
+        sos_core::verif_hooks::probe("db_log.insert_records.committed");
 
         if delete_before {
             self.tree = CommitTree::new();
@@ -512,6 +514,8 @@ where
             })
             .await
             .map_err(Error::from)?;
+        #[cfg(sos_verif)]
+        sos_core::verif_hooks::probe("db_log.rewind.committed");
 
         // Update merkle tree
         self.tree = tree;
@@ -558,6 +562,8 @@ where
             })
             .await
             .map_err(Error::from)?;
+        #[cfg(sos_verif)]
+        sos_core::verif_hooks::probe("db_log.clear.committed");
         self.tree = CommitTree::new();
         Ok(())
     }
